@@ -10,6 +10,7 @@ import PhotVerif.Driver.Peaks
 import PhotVerif.Driver.Render
 import PhotVerif.Driver.ApStats
 import PhotVerif.Driver.Psf
+import PhotVerif.Driver.Bkg
 namespace PhotVerif.Driver
 
 /-- driver state: the objects that live across lines (state-machine models) -/
@@ -17,7 +18,7 @@ structure DState where
   segm : Option PhotVerif.Model.Segm.State := none
 
 def handlers : List (String → List String → Option String) :=
-  [handleGeom, handleMask, handleApSum, handleDetect, handleDeblend, handleLazy, handleCatalog, handlePeaks, handleRender, handleApStats, handlePsf]
+  [handleGeom, handleMask, handleApSum, handleDetect, handleDeblend, handleLazy, handleCatalog, handlePeaks, handleRender, handleApStats, handlePsf, handleBkg]
 
 def dispatch (st : DState) (line : String) : DState × String :=
   match tokens line with
